@@ -1,5 +1,6 @@
 import Infretis.Lemmas.Lattice
 import Infretis.Lemmas.LatticeMovesShoot
+import Infretis.Lemmas.LatticeMovesRef
 import Infretis.Lemmas.LatticeMovesAlg
 import Infretis.Lemmas.LatticeLength
 import Mathlib.Algebra.Order.Archimedean.Basic
@@ -40,7 +41,9 @@ no theorem about a model decides it.  What is proved here, for all sizes:
   concrete paths and invariance over any finite family; `swap_marginal_expect`, `swap_marginal_row_sum`,
   `swap_rao_blackwell` — the matrix of marginals of a weighted set of assignments and the Rao–Blackwell identity over
   finite sums; `estimate_of_stationary_fractions` — with stationary fractions the estimator equals the ratio of
-  expectations, the high-acceptance weights cancel.  Not proved: the measure-theoretic step draws → probabilities,
+  expectations, the high-acceptance weights cancel.  Audit pass: `mean_length_estimate_*` (the length estimator the
+  check applies, as a Lean function compared exactly on every run's rows), `exit_time_law_converges` / `hit_time_law_converges` (finite-horizon laws
+  of the two ingredients of the mean length → their closed forms), `shoot_matches_generic_model` (latShoot = C09's `Moves.shoot` on lattice streams).  Not proved: the measure-theoretic step draws → probabilities,
   ergodicity, reversibility of the wire-fencing kernel, permanent = Σ over permutations.
 -/
 namespace Infretis.C01
@@ -423,6 +426,54 @@ example : rsum ([[0, 1, 0], [0, 1, 2, 1, 0]].map (fun o => pathWeight o * kernel
     = pathWeight [0, 1, 2, 3] * rsum ([[0, 1, 0], [0, 1, 2, 1, 0]].map (fun o => kernelPaths [0, 1, 2, 3] o)) :=
   shoot_invariant_finite _ (by decide) _ (by decide)
 
+
+/-- **The lattice move IS the generic shooting model on lattice streams.**  `latShootRef` is C09's `Moves.shoot .repaired`
+    (the branch-by-branch model of `tis.shoot`, `shoot_backwards`, `paste_paths`, `check_interfaces`, `add_to_path`) fed
+    with the plug-in's streams on doubled coordinates.  Whenever the lattice move returns an answer `o` (any status), the
+    generic model returns exactly `refOut o`: same accept flag and status, the same frames doubled, the same
+    `generated` entries, time origin, draw requests, and engine counters (coins + 1 where that propagation ran);
+    `ValueError` and `ZeroDivisionError` correspond in both directions.  Needs `2 ≤ maxlength` outside the KOB branch —
+    exactly: `shoot_generic_model_differs_*` below.  So every theorem of this section about `latShoot` is a theorem about
+    C09's model of the real function, not about a sibling. -/
+theorem shoot_matches_generic_model (e : Ens) (old : List Int) (ld : Bool) (idx : Nat) (xi : Rat) (cb cf : List Bool)
+    (hML : 2 ≤ e.maxlength) :
+    (∀ o, latShoot e old ld idx xi cb cf = .ok o → latShootRef e old ld idx xi cb cf = .ok (refOut old ld idx o))
+    ∧ (latShoot e old ld idx xi cb cf = .error .value ↔ latShootRef e old ld idx xi cb cf = .error .value)
+    ∧ (latShoot e old ld idx xi cb cf = .error .zerodiv ↔ latShootRef e old ld idx xi cb cf = .error .zerodiv) :=
+  ⟨fun o h => latShootRef_of_ok' e old ld idx xi cb cf o (fun _ => hML) h,
+   latShootRef_value_iff e old ld idx xi cb cf, latShootRef_zerodiv_iff e old ld idx xi cb cf⟩
+
+example :
+    latShoot ⟨1, 2, 10⟩ [0, 1, 2] true 1 0 [false] [true] =
+      .ok { accept := true, status := .ACC, trial := [0, 1, 2], genNb := 1, maxlen := 10, usedB := 1, usedF := 1 }
+    ∧ latShootRef ⟨1, 2, 10⟩ [0, 1, 2] true 1 0 [false] [true] =
+      .ok { accept := true, status := .ACC, trial := [0, 2, 4], genSp := 2, genIdx := 1, genNb := 1, timeOrigin := 0,
+            draws := [.integers 1 2], usedB := 2, usedF := 2 } := by
+  constructor <;> rfl
+
+/-- where the two models differ (both confirmed on the real code: the plug-in's loop `for i in range(path.maxlen)` adds no
+    frame at all when `maxlen − 1 = 0`, so the real move answers BTX with an empty path like `latShoot`; the generic
+    engine contract "the first frame is always handed to add_to_path" gives IndexError) -/
+theorem shoot_generic_model_differs_maxlength_le_1 (e : Ens) (old : List Int) (ld : Bool) (idx : Nat) (xi : Rat)
+    (cb cf : List Bool) (o : Out) (hML : e.maxlength ≤ 1) (h : latShoot e old ld idx xi cb cf = .ok o)
+    (hne : o.status ≠ .KOB) : latShootRef e old ld idx xi cb cf = .error .index :=
+  latShootRef_short e old ld idx xi cb cf o hML h hne
+
+example :
+    latShoot ⟨1, 2, 1⟩ [0, 1, 0] true 1 0 [] [] =
+      .ok { accept := false, status := .BTX, trial := [], genNb := 0, maxlen := 1, usedB := 0, usedF := 0 }
+    ∧ latShootRef ⟨1, 2, 1⟩ [0, 1, 0] true 1 0 [] [] = .error .index :=
+  latShootRef_counterexample_maxlength1
+
+/-- … and scripted coins that run out (never with a generator): the lattice move refuses the script, the generic
+    model's engine loop ends without a stop -/
+theorem shoot_generic_model_differs_exhausted_coins :
+    latShoot ⟨1, 3, 10⟩ [0, 1, 0] true 1 0 [] [] = .error .badDraw
+    ∧ latShootRef ⟨1, 3, 10⟩ [0, 1, 0] true 1 0 [] [] =
+      .ok { accept := false, status := .BTL, trial := [2], genSp := 2, genIdx := 1, genNb := 0, timeOrigin := 1,
+            draws := [.integers 1 2], usedB := 1, usedF := 0 } :=
+  latShootRef_counterexample_coins
+
 end Shooting
 
 /-! ### the ∞-swap step: marginals and Rao–Blackwell -/
@@ -524,7 +575,117 @@ theorem mean_length_closed_form (n k : Nat) (hk : 0 < k) :
 example : meanLen 4 1 = 5 ∧ meanLen 4 2 = 7 ∧ meanLen 4 3 = 23 / 3 ∧ exitTime 4 2 = 4 ∧ hitTime 3 1 = 8 / 9 := by
   decide +kernel
 
+
+/-- **The walk's own law of the exit time converges to the closed form.**  `stepsBy N t x` = E[min(τ, t)] under the walk's
+    law (finite-horizon recursion, like `reachBy`) lies below x·(N−x) and within ρ^t·(x(N−x)+1) of it, ρ = N²/(N²+4) < 1:
+    the exit-time reference is the limit of the walk's own law, not only the solution of first-step equations.
+    (The conditional part of `meanLen`, `hitTime k 1 / ruin k 1`, has no such law-level statement yet; the tie compares
+    `meanLen` with an independent enumeration of the path ensemble's measure on every run.) -/
+theorem exit_time_law_converges (N : Nat) (hN : 0 < N) (t x : Nat) (hx : x ≤ N) :
+    stepsBy N t x ≤ exitTime N x
+      ∧ exitTime N x - stepsBy N t x ≤ rho N ^ t * ((x : Rat) * ((N : Rat) - (x : Rat)) + 1) ∧ rho N < 1 := by
+  obtain ⟨h1, h2⟩ := stepsBy_gap N hN t x hx
+  exact ⟨by linarith, h2, rho_lt_one N⟩
+
+example : stepsBy 4 6 2 = 7 / 2 ∧ exitTime 4 2 = 4 ∧ exitTime 4 2 - stepsBy 4 6 2 ≤ rho 4 ^ 6 * (2 * (4 - 2) + 1) := by decide +kernel
+
+/-- **… and so does the law of the time to the top on the event "top first".**  `hitStepsBy N t x` =
+    E[τ·1{site N before site 0, τ ≤ t}] under the walk's law lies below `hitTime N x` = x(N²−x²)/(3N) and within
+    (t+1)·ρ^t·(x(N−x)+1) of it.  With `walk_law_converges` (the denominator `ruin k 1`) and `exit_time_law_converges`
+    every ingredient of `meanLen n k` is the limit of a finite-horizon law of the walk; what stays unformalised is the
+    strong Markov property that adds them up. -/
+theorem hit_time_law_converges (N : Nat) (hN : 0 < N) (t x : Nat) (hx : x ≤ N) :
+    hitStepsBy N t x ≤ hitTime N x
+      ∧ hitTime N x - hitStepsBy N t x ≤ ((t : Rat) + 1) * rho N ^ t * ((x : Rat) * ((N : Rat) - (x : Rat)) + 1) := by
+  obtain ⟨h1, h2⟩ := hitStepsBy_gap N hN t x hx
+  exact ⟨by linarith, h2⟩
+
+example : hitStepsBy 3 6 1 = 27 / 32 ∧ hitTime 3 1 = 8 / 9 := by decide +kernel
+
 end Length
+
+/-! ### the second estimator: reweighted mean path length (Lean twin of the check's `length_stats`) -/
+
+/-- the reweighted mean length is a weighted mean: between any two bounds that hold for every contributing row -/
+theorem mean_length_estimate_bounds (k : Nat) (rows : List Row) (m : Rat) (a b : Rat)
+    (h : meanLenEst k rows = some m)
+    (hab : ∀ r ∈ rows, term k r ≠ 0 → a ≤ (r.len : Rat) ∧ (r.len : Rat) ≤ b) :
+    m = lenNum k rows / den k rows ∧ 0 < den k rows ∧ a ≤ m ∧ m ≤ b := by
+  unfold meanLenEst at h
+  split at h
+  · cases h
+  · rename_i hd
+    have hd0 : 0 < den k rows := lt_of_le_of_ne (sumOver_nonneg _ (term_nonneg k) rows) (Ne.symm hd)
+    have hm : m = lenNum k rows / den k rows := (Option.some.inj h).symm
+    have hlo : a * den k rows ≤ lenNum k rows := by
+      unfold den lenNum
+      rw [← sumOver_mul_left]
+      apply sumOver_le
+      intro r hr
+      by_cases ht : term k r = 0
+      · simp [ht]
+      · have := (hab r hr ht).1
+        have h0 := term_nonneg k r
+        nlinarith
+    have hhi : lenNum k rows ≤ b * den k rows := by
+      unfold den lenNum
+      rw [← sumOver_mul_left]
+      apply sumOver_le
+      intro r hr
+      by_cases ht : term k r = 0
+      · simp [ht]
+      · have := (hab r hr ht).2
+        have h0 := term_nonneg k r
+        nlinarith
+    refine ⟨hm, hd0, ?_, ?_⟩
+    · rw [hm, le_div_iff₀ hd0]; exact hlo
+    · rw [hm, div_le_iff₀ hd0]; exact hhi
+
+/-- invariant under the same column rescalings as the crossing estimate -/
+theorem mean_length_estimate_scale_invariant (k : Nat) (c d : Rat) (hc : 0 < c) (hd : 0 < d) (rows : List Row) :
+    meanLenEst k (rows.map (Row.scaleCol k c d)) = meanLenEst k rows := by
+  have hs : d / c ≠ 0 := ne_of_gt (div_pos hd hc)
+  have hden : den k (rows.map (Row.scaleCol k c d)) = d / c * den k rows :=
+    sumOver_map_mul _ _ _ _ (term_scaleCol k c d hc hd) rows
+  have hnum : lenNum k (rows.map (Row.scaleCol k c d)) = d / c * lenNum k rows := by
+    apply sumOver_map_mul
+    intro r
+    rw [term_scaleCol k c d hc hd]
+    show d / c * term k r * ((r.scaleCol k c d).len : Rat) = _
+    simp only [Row.scaleCol]; ring
+  unfold meanLenEst
+  rw [hden, hnum]
+  by_cases h0 : den k rows = 0
+  · simp [h0]
+  · have : d / c * den k rows ≠ 0 := mul_ne_zero hs h0
+    rw [if_neg this, if_neg h0, mul_div_mul_left _ _ hs]
+
+/-- with stationary fractions (term = c·ρ) the estimate is Σ ρ·len / Σ ρ: the weights cancel -/
+theorem mean_length_of_stationary_fractions (k : Nat) (rows : List Row) (c : Rat) (ρ : Row → Rat) (hc : 0 < c)
+    (hterm : ∀ r ∈ rows, term k r = c * ρ r) (hden : sumOver ρ rows ≠ 0) :
+    meanLenEst k rows = some (sumOver (fun r => ρ r * (r.len : Rat)) rows / sumOver ρ rows) := by
+  have hc0 : c ≠ 0 := ne_of_gt hc
+  have hd : den k rows = c * sumOver ρ rows := by
+    unfold den
+    rw [sumOver_congr (term k) (fun r => c * ρ r) rows hterm, sumOver_mul_left]
+  have hn : lenNum k rows = c * sumOver (fun r => ρ r * (r.len : Rat)) rows := by
+    unfold lenNum
+    rw [← sumOver_mul_left]
+    apply sumOver_congr
+    intro r hr
+    rw [hterm r hr]; ring
+  unfold meanLenEst
+  rw [hd, hn, if_neg (mul_ne_zero hc0 hden), mul_div_mul_left _ _ hc0]
+
+theorem len_num_append (k : Nat) (a b : List Row) : lenNum k (a ++ b) = lenNum k a + lenNum k b :=
+  sumOver_append _ a b
+
+example :
+    let rows : List Row := [{ len := 5, maxOp := 5 / 2, frac := [0, 1 / 2, 1 / 3], w := [0, 1, 2] },
+                            { len := 7, maxOp := 3 / 2, frac := [0, 1 / 4, 2 / 3], w := [0, 1, 1] }]
+    meanLenEst 1 rows = some (17 / 3) ∧ meanLenEst 2 rows = some (33 / 5) ∧ meanLenEst 0 rows = none
+      ∧ meanLenEst 2 (rows.map (Row.scaleCol 2 3 (1 / 7))) = some (33 / 5) := by
+  decide +kernel
 
 /-! ### from stationary fractions to crossing probabilities -/
 
